@@ -26,6 +26,7 @@ type verifC05Case struct {
 	HTML   bool   `json:"html"`     // text/html response (exercises the shim's body splice when enabled)
 	Config string `json:"config"`   // plain | shim | banner
 	CL     bool   `json:"content_length"` // the backend declares Content-Length and still writes the body in pieces
+	Proto  string `json:"proto"`          // protocol version on the request line of the forwarded request
 }
 
 type verifC05Obs struct {
@@ -122,7 +123,13 @@ func TestVerifC05(t *testing.T) {
 			}
 		case strings.HasSuffix(r.URL.Path, "agent/request"):
 			w.Header().Set("X-Inverting-Proxy-Request-Start-Time", time.Now().Format(time.RFC3339Nano))
-			fmt.Fprintf(w, "GET /c05/%s HTTP/1.1\r\nHost: verif.example\r\nAccept: */*\r\n\r\n", id)
+			mu.Lock()
+			proto := "HTTP/1.1"
+			if c := cases[id]; c != nil && c.Proto != "" {
+				proto = c.Proto
+			}
+			mu.Unlock()
+			fmt.Fprintf(w, "GET /c05/%s %s\r\nHost: verif.example\r\nAccept: */*\r\n\r\n", id, proto)
 		case strings.HasSuffix(r.URL.Path, "agent/response"):
 			mu.Lock()
 			ch, o := observed[id], obs[id]
@@ -213,7 +220,8 @@ func TestVerifC05(t *testing.T) {
 			cnt = n / 3
 		}
 		for i := 0; i < cnt; i++ {
-			c := &verifC05Case{ID: fmt.Sprintf("%s-%d", config, i), Pause: []int{0, 0, 5, 40, 150}[rng.intn(5)], HTML: rng.intn(3) == 0, Config: config, CL: i%3 == 1}
+			c := &verifC05Case{ID: fmt.Sprintf("%s-%d", config, i), Pause: []int{0, 0, 5, 40, 150}[rng.intn(5)], HTML: rng.intn(3) == 0, Config: config, CL: i%3 == 1,
+				Proto: []string{"HTTP/1.1", "HTTP/1.1", "HTTP/2.0", "HTTP/1.1", "HTTP/1.0"}[i%5]}
 			nc := []int{1, 2, 3, 10, 40}[rng.intn(5)]
 			if i%9 == 0 {
 				nc = 120
